@@ -29,6 +29,19 @@ def _is_ours(name):
     return name == _PREFIX or name.startswith(_PREFIX + ".")
 
 
+# Keys of the `beyond*` modules currently installed in sys.modules (None = unknown, scan).  Every context switch goes through this
+# file, so the set is known without scanning the ~700 entries of sys.modules twice per switch; modules imported lazily while a node
+# runs are found by a scan on exit, made only when the size of sys.modules changed in between.
+_cur_keys = None
+
+
+def _current_keys():
+    global _cur_keys
+    if _cur_keys is None:
+        _cur_keys = [k for k in sys.modules if _is_ours(k)]
+    return _cur_keys
+
+
 def _ensure_path():
     if not sys.path or sys.path[0] != REPO:
         # the path-based finder is consulted before the editable-install finder
@@ -162,7 +175,9 @@ class Node:
         self.disk = disk if disk is not None else SimDisk()
         self._saved = None
         _ensure_path()
+        global _cur_keys
         outer = {k: sys.modules.pop(k) for k in list(sys.modules) if _is_ours(k)}
+        _cur_keys = None
         try:
             importlib.invalidate_caches() if False else None
             pkg = importlib.import_module("beyond")
@@ -207,21 +222,31 @@ class Node:
             for k in [k for k in sys.modules if _is_ours(k)]:
                 del sys.modules[k]
             sys.modules.update(outer)
+            _cur_keys = list(outer)
 
     # context switch -----------------------------------------------------
     def __enter__(self):
+        global _cur_keys
         self._stack = getattr(self, "_stack", [])
-        self._stack.append(
-            {k: sys.modules.pop(k) for k in list(sys.modules) if _is_ours(k)}
-        )
-        sys.modules.update(self.modules)
+        mods = sys.modules
+        saved = {k: mods.pop(k) for k in _current_keys() if k in mods}
+        mods.update(self.modules)
+        _cur_keys = list(self.modules)
+        self._stack.append((saved, len(mods)))
         return self
 
     def __exit__(self, *exc):
-        # modules imported lazily while the node ran belong to the node
-        for k in [k for k in sys.modules if _is_ours(k)]:
-            self.modules[k] = sys.modules.pop(k)
-        sys.modules.update(self._stack.pop())
+        global _cur_keys
+        mods = sys.modules
+        saved, size = self._stack.pop()
+        if len(mods) != size:
+            # modules imported lazily while the node ran belong to the node
+            for k in [k for k in mods if _is_ours(k)]:
+                self.modules[k] = mods[k]
+        for k in self.modules:
+            mods.pop(k, None)
+        mods.update(saved)
+        _cur_keys = list(saved)
         return False
 
     def mod(self, name):
